@@ -20,7 +20,7 @@ from paths import CORPUS, VERIF, REPO
 PROP = 'C16'
 VARIANTS = ['asan-direct']
 RULE = ('(1) boundary sweep (see C01) with the ledger oracle; (2) fz_face / fz_shape campaigns with FZ_REPORT=C16; (3) Hypothesis histories of 2..20 operations (make_seg kept / dropped, '
-        'fonts, feature values, label queries in 3 encodings, reports) on shipped / synthesised fonts, 1 in 3 with 1..3 corrupted bytes inside Graphite tables, face options 0..7, '
+        'fonts, feature values, label queries in 3 encodings by index and by feature id, reports) on shipped / synthesised fonts (1 in 3 of those with every feature hidden), 1 in 3 with 1..3 corrupted bytes inside Graphite tables, face options 0..7, '
         'LeakSanitizer consulted at quiescence every 50 histories. Non-trivial: >= 5 tables borrowed and (the face was rejected after >= 3 borrows, or a table was borrowed after construction). '
         'Distinct by case JSON / (offset,value) / input hash.')
 ASSUME = ['the ledger sees every get_table / release_table call (callbacks source); file faces and the deprecated no-release API are exercised for safety only']
